@@ -699,3 +699,140 @@ def s_translate_if(_ctx):
 
 
 SCENARIOS.append(Scenario("C13.export.if", s_translate_if, [(REL, "_Exporter._translate_if"), (REL, "_Exporter._emit_assign")], kind="evaluation"))
+
+
+def s_graph_text_layout(ctx):
+    """_translate_graph (+ _substitute_initializers): for every setting of skip_initializers and whether or not some initializer is
+    large enough to be skipped, the emitted text is valid Python whose layout is either a top-level script function or a script
+    function nested in `make_model(<skipped initializers>)` — never an indented top-level statement."""
+    import ast as _ast
+    import onnx
+    I = Interp(ctx)
+    exp = _exp()
+    self = SObj(exp._Exporter, "exporter")
+    skip = ctx.choose(2, "skip_initializers") == 1
+    n_skipped = ctx.choose(3, "initializers large enough to be skipped") if skip else 0
+    use_ops = ctx.choose(2, "use_operators") == 0
+    doc = ["", "a doc string"][ctx.choose(2, "doc string")]
+    self.fields.update(use_operators=use_ops, skip_initializers=skip, skipped_initializers={}, _name_remappings=[], _attr_renaming={},
+                       _names_used=set(), constants={})
+
+    def ident(n):
+        raise AssertionError
+    I.models[ident] = lambda interp, n: n
+    self.fields["_rename_variable"] = ident
+
+    def m_body(interp, slf, g, opsets, indent=0):
+        # what the real _translate_graph_body does with initializers: the large ones are recorded, not emitted
+        for k in range(n_skipped):
+            t = onnx.TensorProto()
+            t.name = f"w{k}"
+            t.data_type = onnx.TensorProto.FLOAT
+            t.dims.extend([64, 64])
+            slf.fields["skipped_initializers"][f"w{k}"] = t
+        return "    " * indent + "y = opset18.Relu(x)"
+    I.models[exp._Exporter._translate_graph_body] = m_body
+    I.models[exp._translate_signature] = lambda interp, i, o, *a: "(x):"
+    I.models[exp._translate_value_infos] = lambda interp, vi: "{}"
+
+    def imp(domain, version):
+        o = SObj(onnx.OperatorSetIdProto, "opsetid")
+        o.fields.update(domain=domain, version=version)
+        return o
+    g = SObj(onnx.GraphProto, "graph")
+    g.fields.update(name="g", input=[], output=["y"], doc_string=doc, value_info=[])
+    m = SObj(onnx.ModelProto, "model")
+    m.fields.update(graph=g, opset_import=[imp("", 18)])
+    text = I.run_closure(I.closure_of(exp._Exporter._translate_graph), [self, m, "main"], {})
+    ok = isinstance(text, str)
+    tree = None
+    if ok:
+        try:
+            tree = _ast.parse(text)
+        except SyntaxError:
+            ok = False
+    CLX = "C13: 'it never emits text that is not valid Python' — 'under every export option (rename, use_operators, inline_const, skip_initializers)'"
+    ctx.check("C13.export.graph_text.is_valid_python_for_every_option", ok, CLX)
+    if not ok:
+        return
+    tops = [n for n in tree.body if isinstance(n, _ast.FunctionDef)]
+    if n_skipped:
+        mk = [n for n in tops if n.name == "make_model"]
+        inner = [n for n in (mk[0].body if mk else []) if isinstance(n, _ast.FunctionDef) and n.name == "main"]
+        ctx.check("C13.export.graph_text.skipped_initializers_are_the_parameters_of_make_model",
+                  bool(mk) and [a.arg for a in mk[0].args.args] == [f"w{k}" for k in range(n_skipped)] and len(inner) == 1, CLX)
+    else:
+        nested = [n for t in tops for n in t.body if isinstance(n, _ast.FunctionDef) and n.name == "main"]
+        ctx.check("C13.export.graph_text.defines_the_script_function", any(n.name == "main" for n in tops) or len(nested) == 1, CLX)
+
+
+SCENARIOS.append(Scenario("C13.export.graph_text_layout", s_graph_text_layout,
+                          [(REL, "_Exporter._translate_graph"), (REL, "_Exporter._substitute_initializers")]))
+
+
+def s_initializer_names(_ctx):
+    """_translate_graph_body (+ the real _translate_node / _translate_onnx_var): the Python variable that receives an initializer's
+    Constant is the variable its uses are translated to — for every renaming function, in particular one that is NOT idempotent
+    (rename=True hands out a fresh short name for every string it has not seen, so translating a name twice gives another name)."""
+    import numpy as np
+    import onnx
+    from onnx import helper, numpy_helper, TensorProto
+    from contracts.c17_opsets import Agg
+    from pyvc.core import Ctx
+    exp = _exp()
+    agg = Agg()
+    cl = ("C13: 'under every export option (rename, use_operators, inline_const, skip_initializers)' the emitted source 'computes the same "
+          "outputs as the original' — an initializer must be assigned under the name its consumers read")
+    renamers = {
+        "cleanup (rename=False)": lambda: exp._cleanup_variable_name,
+        "short names (rename=True)": lambda: exp._make_short_name_mapper(),
+        "an injective, non-idempotent renaming": lambda: (lambda name: "r_" + exp._cleanup_variable_name(name)),
+    }
+    n = 0
+    for rk, mk in renamers.items():
+        for init_name in ("w", "layer.0.weight"):
+            n += 1
+            ctx = Ctx([], {"solver_s": 0.0, "queries": 0})
+            I = Interp(ctx)
+            self = SObj(exp._Exporter, "exporter")
+            ren = mk()
+            seen = {}
+
+            def renamer(nm):
+                raise AssertionError
+
+            def m_ren(interp, nm, ren=ren, seen=seen):
+                r = ren(nm)
+                seen.setdefault(nm, r)
+                return r
+            I.models[renamer] = m_ren
+            self.fields.update(use_operators=False, inline_const=False, constants={}, _name_remappings=[{}], _rename_variable=renamer,
+                               skip_initializers=False, skipped_initializers={}, _attr_renaming={}, _names_used=set())
+            g = helper.make_graph([helper.make_node("Add", ["x", init_name], ["y"])], "g",
+                                  [helper.make_tensor_value_info("x", TensorProto.FLOAT, [2])], [helper.make_tensor_value_info("y", TensorProto.FLOAT, [2])],
+                                  initializer=[numpy_helper.from_array(np.array([1, 2], np.float32), init_name)])
+            try:
+                text = I.run_closure(I.closure_of(exp._Exporter._translate_graph_body), [self, g, {"": 18}], {"indent": 1})
+            except Exception as e:  # noqa: BLE001
+                agg.ob("C13.export.initializer.assigned_under_the_name_its_uses_read", False, f"{rk}, initializer {init_name!r}: {type(e).__name__}: {e}", cl,
+                       case=f"{rk}: {init_name}")
+                continue
+            ok, detail = False, f"{rk}, initializer {init_name!r}: emitted {text!r}"
+            try:
+                import textwrap
+                body = ast.parse(textwrap.dedent(text)).body
+                assigned = [t.id for s in body if isinstance(s, ast.Assign) and isinstance(s.value, ast.Call) and getattr(s.value.func, "attr", "") == "Constant"
+                            for t in s.targets if isinstance(t, ast.Name)]
+                adds = [s.value for s in body if isinstance(s, ast.Assign) and isinstance(s.value, ast.Call) and getattr(s.value.func, "attr", "") == "Add"]
+                used = [a.id for c in adds for a in c.args if isinstance(a, ast.Name)]
+                ok = len(assigned) == 1 and len(used) == 2 and assigned[0] == used[1]
+                if not ok:
+                    detail += f": the Constant is assigned to {assigned} while Add reads {used}"
+            except SyntaxError as e:
+                detail += f" - not valid Python ({e})"
+            agg.ob("C13.export.initializer.assigned_under_the_name_its_uses_read", ok, detail, cl, case=f"{rk}: {init_name}")
+    return {"obligations": agg.obs, "paths": n, "covered": [f"renamings={n}"], "notes": [], "functions": []}
+
+
+SCENARIOS.append(Scenario("C13.export.initializer_names", s_initializer_names,
+                          [(REL, "_Exporter._translate_graph_body"), (REL, "_Exporter._translate_node"), (REL, "_Exporter._translate_onnx_var")], kind="evaluation"))
